@@ -57,6 +57,14 @@ def units(tier):
     for i in range(40):
         chain = ["and" if i % 2 else "or", [chain]]
     add("andor40", chain, vlen=1, alen=1)
+    # fully concrete instances (no solver variable): they keep the cheap end of the property
+    # observable even if a change makes the symbolic run of the parser intractable
+    for i, (spec, vb, at) in enumerate([
+        (["and", [["eq"], ["or", [["sub_iaf"], ["present"]]]]], "a*(b)\\\x00\xff", "cn;lang-en"),
+        (["not", ["ext_ardn"]], "*", "2.5.4.3"),
+        (["or", [["ge"], ["le"], ["approx"], ["sub_aa"]]], " x ", "o"),
+    ]):
+        add(f"concrete{i}", spec, vlen=1, alen=1, concrete=[vb, at])
     add("history_of_failures", ["and", [["eq"], ["not", ["sub_iaf"]]]], vlen=1, alen=1, history=40000)
     if tier == "thorough":
         for a in LEAF_KINDS[::2]:
@@ -68,6 +76,7 @@ def units(tier):
 class G:
     def __init__(self, ctx, shape):
         self.ctx = ctx
+        self.shape = shape
         self.vlen = shape["vlen"]
         self.alen = shape["alen"]
         self.n = 0
@@ -81,6 +90,8 @@ class G:
 
     def attr(self, rule=False):
         ctx = self.ctx
+        if self.shape.get("concrete"):
+            return "caseExactMatch" if rule else self.shape["concrete"][1]
         n = self.alen if self.first_attr else 1
         self.first_attr = False
         s = ctx.str(self.name("a"), n, 0x20, 0x7E)
@@ -91,6 +102,8 @@ class G:
         return s
 
     def val(self, nonempty=False):
+        if self.shape.get("concrete"):
+            return self.shape["concrete"][0].encode("latin-1")
         i = self.vcount
         self.vcount += 1
         n = self.vlen if i == self.vidx else 1
